@@ -1,6 +1,6 @@
 //! unit: assembler -- stream reassembly (`Assembler`): every chunk handed to the application is the sender's bytes at that offset, ordered reads are gap-free
 //! props: C01
-//! trusted: std BinaryHeap / PeekMut contract (sequence view, PeekMut as a prophecy of the heap after the borrow); RangeSet (btree) contract incl. `replace`; Assembler::defragment and Assembler::ensure_ordering bodies (iterator adapters) are contract boundaries
+//! trusted: std BinaryHeap / PeekMut contract (sequence view; PeekMut as a prophecy of the heap after the borrow; into_sorted_vec = sorted permutation); bytes::{Bytes,BytesMut} contract; btree RangeSet contract incl. `replace` (set view, counting); `for x in &heap` iterates the enumeration (one header rewrite in ensure_ordering); hand-written Default for Assembler standing for #[derive(Default)]; machine arithmetic: allocation estimates fit usize (insert precondition)
 #![feature(allocator_api)]
 #![allow(unused_imports, dead_code, non_camel_case_types, non_snake_case, unused_variables, unused_mut, unused_assignments)]
 use vstd::prelude::*;
@@ -102,6 +102,10 @@ pub assume_specification<T: Ord, A: Allocator>[BinaryHeap::<T, A>::into_sorted_v
         forall|j: int| 0 <= j < r@.len() ==> r@.contains(#[trigger] heap_view(h)[j]),
         forall|f: spec_fn(T) -> nat| #[trigger] seq_sum(r@, f) == seq_sum(heap_view(h), f),
         T::obeys_cmp_spec() ==> forall|i: int, j: int| #![trigger r@[i], r@[j]] 0 <= i <= j < r@.len() ==> !(r@[i].cmp_spec(&r@[j]) is Greater);
+pub assume_specification<T>[<BinaryHeap<T> as Default>::default]() -> (r: BinaryHeap<T>)
+    ensures heap_view(r) == Seq::<T>::empty();
+pub assume_specification<T: core::default::Default> [core::mem::take::<T>] (b: &mut T) -> (r: T)
+    ensures r == *old(b), call_ensures(T::default, (), *final(b));
 pub assume_specification<T, A: Allocator>[BinaryHeap::<T, A>::clear](h: &mut BinaryHeap<T, A>)
     ensures heap_view(*final(h)) == Seq::<T>::empty();
 pub assume_specification<T, A: Allocator>[BinaryHeap::<T, A>::len](h: &BinaryHeap<T, A>) -> (r: usize)
@@ -409,6 +413,340 @@ pub proof fn lemma_holds_remove(s: Seq<Buffer>, i: int, br: u64)
     if j < i { assert(s.remove(i)[j] == s[j]); } else { assert(s.remove(i)[j - 1] == s[j]); }
 }
 
+
+// ---- Assembler::defragment, first pass: trimming in ascending offset order -------------------------------------------------
+/// what `try_mark_defragment(offset)` makes of `o`
+pub open spec fn marked(f: Buffer, o: Buffer, offset: u64) -> bool {
+    &&& f.trim_of(o)
+    &&& f.offset == (if o.offset >= offset { o.offset } else { offset })
+    &&& f.bytes@.len() == (if offset <= o.offset { o.bytes@.len() as int } else if offset - o.offset >= o.bytes@.len() { 0int } else { o.bytes@.len() - (offset - o.offset) })
+    &&& f.bytes@.len() <= f.allocation_size
+    &&& (f.defragmented ==> f.allocation_size == f.bytes@.len())
+    &&& (!f.defragmented ==> 0 < f.bytes@.len() <= 0xffff_ffff)
+}
+pub open spec fn sorted_desc(b0: Seq<Buffer>) -> bool {
+    forall|a: int, b: int| 0 <= a <= b < b0.len() ==> (#[trigger] b0[a]).offset >= (#[trigger] b0[b]).offset
+}
+pub open spec fn all_ok(b0: Seq<Buffer>, end: u64) -> bool { forall|i: int| 0 <= i < b0.len() ==> buf_ok(#[trigger] b0[i], end) }
+/// lower end of the region known to be held by processed buffers
+pub open spec fn lastoff(b0: Seq<Buffer>, idx: int, start: u64) -> int {
+    if idx == 0 { start as int } else if b0[b0.len() - idx].offset > start { b0[b0.len() - idx].offset as int } else { start as int }
+}
+/// per processed buffer
+pub open spec fn fin_elem(f: Buffer, o: Buffer, start: u64, offset: u64) -> bool {
+    &&& f.trim_of(o) && f.offset >= start && f.end() <= offset
+    &&& f.bytes@.len() <= f.allocation_size && (f.defragmented ==> f.allocation_size == f.bytes@.len())
+    &&& (!f.defragmented ==> 0 < f.bytes@.len() <= 0xffff_ffff)
+}
+/// state of the first pass: `fin` = the processed buffers in processing (ascending offset) order, `offset` = running end
+#[verifier::opaque]
+pub open spec fn p1(fin: Seq<Buffer>, b0: Seq<Buffer>, start: u64, offset: u64, end: u64) -> bool {
+    let n = b0.len() as int;
+    let idx = fin.len() as int;
+    &&& idx <= n && start <= offset && (offset <= end || offset == start)
+    &&& sum_len(fin) + start <= offset
+    &&& forall|i: int| 0 <= i < idx ==> fin_elem(#[trigger] fin[i], b0[n - 1 - i], start, offset)
+    &&& forall|i: int, j: int| 0 <= i < j < idx ==> (#[trigger] fin[i]).end() <= (#[trigger] fin[j]).offset
+    &&& sum_len(fin) <= sum_len(b0.skip(n - idx))
+    // everything between the latest original's start and the running end is held by a processed buffer
+    &&& forall|k: int| lastoff(b0, idx, start) <= k < offset ==> seq_covers(fin, k)
+    // no offset at or above `start` that a processed original held has been lost
+    &&& forall|k: int, i: int| 0 <= i < idx && k >= start && (#[trigger] b0[n - 1 - i]).offset <= k < b0[n - 1 - i].end() ==> #[trigger] seq_covers(fin, k)
+}
+pub proof fn lemma_p1_init(b0: Seq<Buffer>, start: u64, end: u64)
+    ensures p1(Seq::<Buffer>::empty(), b0, start, start, end)
+{
+    reveal(p1);
+    assert(b0.skip(b0.len() as int) =~= Seq::<Buffer>::empty());
+}
+pub proof fn lemma_p1_step(fin: Seq<Buffer>, b0: Seq<Buffer>, start: u64, offset: u64, end: u64, f: Buffer)
+    requires p1(fin, b0, start, offset, end), sorted_desc(b0), all_ok(b0, end), fin.len() < b0.len(),
+        marked(f, b0[b0.len() - 1 - fin.len()], offset), end <= 0x4000_0000_0000_0000, start <= 0x4000_0000_0000_0000,
+    ensures f.offset + f.bytes@.len() <= 0x4000_0000_0000_0000,
+        p1(fin.push(f), b0, start, (f.offset + f.bytes@.len()) as u64, end),
+        sum_len(fin.push(f)) == sum_len(fin) + f.bytes@.len(),
+        sum_len(fin.push(f)) + start <= f.offset + f.bytes@.len(),
+{
+    reveal(p1);
+    let n = b0.len() as int;
+    let idx = fin.len() as int;
+    let o = b0[n - 1 - idx];
+    let fin1 = fin.push(f);
+    let offset1 = (f.offset + f.bytes@.len()) as u64;
+    assert(buf_ok(o, end));
+    lemma_sum_push(fin, f);
+    lemma_sum_skip(b0, n - 1 - idx);
+    assert forall|i: int| 0 <= i < idx + 1 implies fin_elem(#[trigger] fin1[i], b0[n - 1 - i], start, offset1) by {
+        if i < idx { assert(fin1[i] == fin[i]); assert(fin_elem(fin[i], b0[n - 1 - i], start, offset)); }
+    }
+    assert forall|i: int, j: int| 0 <= i < j < idx + 1 implies (#[trigger] fin1[i]).end() <= (#[trigger] fin1[j]).offset by {
+        assert(fin1[i] == fin[i]);
+        assert(fin_elem(fin[i], b0[n - 1 - i], start, offset));
+        if j < idx { assert(fin1[j] == fin[j]); }
+    }
+    assert forall|k: int| #![trigger seq_covers(fin1, k)] seq_covers(fin, k) implies seq_covers(fin1, k) by { lemma_covers_push(fin, f, k); }
+    assert forall|k: int| lastoff(b0, idx + 1, start) <= k < offset1 implies seq_covers(fin1, k) by {
+        if k < offset {
+            if idx > 0 { assert(b0[n - idx].offset <= o.offset); }
+            assert(seq_covers(fin, k));
+        } else {
+            lemma_covers_push(fin, f, k);
+        }
+    }
+    assert forall|k: int, i: int| 0 <= i < idx + 1 && k >= start && (#[trigger] b0[n - 1 - i]).offset <= k < b0[n - 1 - i].end() implies #[trigger] seq_covers(fin1, k) by {
+        if i < idx { assert(seq_covers(fin, k)); }
+    }
+}
+
+pub open spec fn cons(hv: Seq<Buffer>, s: Seq<u8>) -> bool { forall|j: int| 0 <= j < hv.len() ==> (#[trigger] hv[j]).matches(s) }
+/// what the second pass needs to know about the trimmed buffers
+#[verifier::opaque]
+pub open spec fn fin_static(fin: Seq<Buffer>, start: u64, end: u64, hv: Seq<Buffer>) -> bool {
+    &&& end <= 0x4000_0000_0000_0000
+    &&& forall|i: int| 0 <= i < fin.len() ==> (#[trigger] fin[i]).offset >= start && fin[i].end() <= end && fin[i].bytes@.len() <= fin[i].allocation_size
+            && (fin[i].defragmented ==> fin[i].allocation_size == fin[i].bytes@.len()) && (!fin[i].defragmented ==> 0 < fin[i].bytes@.len() <= 0xffff_ffff)
+    &&& forall|i: int, j: int| 0 <= i < j < fin.len() ==> (#[trigger] fin[i]).end() <= (#[trigger] fin[j]).offset
+    &&& forall|s: Seq<u8>, i: int| #![trigger fin[i].matches(s)] cons(hv, s) && 0 <= i < fin.len() && fin[i].bytes@.len() > 0 ==> fin[i].matches(s)
+}
+pub proof fn lemma_p1_final(fin: Seq<Buffer>, b0: Seq<Buffer>, start: u64, offset: u64, end: u64, hv: Seq<Buffer>)
+    requires p1(fin, b0, start, offset, end), fin.len() == b0.len(), all_ok(b0, end), start <= end, end <= 0x4000_0000_0000_0000,
+        forall|i: int| 0 <= i < b0.len() ==> hv.contains(#[trigger] b0[i]),
+        forall|j: int| 0 <= j < hv.len() ==> b0.contains(#[trigger] hv[j]),
+    ensures fin_static(fin, start, end, hv), sum_len(fin) <= sum_len(b0),
+        forall|k: int| k >= start && seq_covers(hv, k) ==> seq_covers(fin, k),
+{
+    reveal(p1); reveal(fin_static);
+    let n = b0.len() as int;
+    assert(b0.skip(0) =~= b0);
+    assert forall|i: int| 0 <= i < n implies (#[trigger] fin[i]).offset >= start && fin[i].end() <= end && fin[i].bytes@.len() <= fin[i].allocation_size
+            && (fin[i].defragmented ==> fin[i].allocation_size == fin[i].bytes@.len()) && (!fin[i].defragmented ==> 0 < fin[i].bytes@.len() <= 0xffff_ffff) by {
+        assert(fin_elem(fin[i], b0[n - 1 - i], start, offset));
+    }
+    assert forall|s: Seq<u8>, i: int| #![trigger fin[i].matches(s)] cons(hv, s) && 0 <= i < n && fin[i].bytes@.len() > 0 implies fin[i].matches(s) by {
+        let o = b0[n - 1 - i];
+        assert(fin_elem(fin[i], o, start, offset));
+        assert(hv.contains(o));
+        let j = choose|j: int| 0 <= j < hv.len() && hv[j] == o;
+        assert(hv[j].matches(s));
+    }
+    assert forall|k: int| k >= start && seq_covers(hv, k) implies seq_covers(fin, k) by {
+        let j = choose|j: int| 0 <= j < hv.len() && (#[trigger] hv[j]).offset <= k < hv[j].end();
+        assert(b0.contains(hv[j]));
+        let i = choose|i: int| 0 <= i < b0.len() && b0[i] == hv[j];
+        assert(b0[n - 1 - (n - 1 - i)] == hv[j]);
+    }
+}
+
+// ---- Assembler::defragment, second pass: rebuilding the heap, merging contiguous fragments --------------------------------
+pub open spec fn heap_elem(b: Buffer, start: u64, end: u64) -> bool { buf_ok(b, end) && b.allocation_size == b.bytes@.len() && b.offset >= start }
+/// state of the second pass: `h` = the rebuilt heap, (`off`, `buf`) = the merge buffer, `idx` = how many of `fin` are done
+#[verifier::opaque]
+pub open spec fn p2(h: Seq<Buffer>, buf: Seq<u8>, off: int, fin: Seq<Buffer>, idx: int, start: u64, end: u64, hv: Seq<Buffer>) -> bool {
+    let n = fin.len() as int;
+    &&& 0 <= idx <= n
+    &&& forall|j: int| 0 <= j < h.len() ==> heap_elem(#[trigger] h[j], start, end)
+    &&& pairwise_disjoint(h)
+    &&& forall|j: int, i: int| 0 <= j < h.len() && idx <= i < n ==> (#[trigger] h[j]).end() <= (#[trigger] fin[i]).offset
+    &&& forall|s: Seq<u8>, j: int| #![trigger h[j].matches(s)] cons(hv, s) && 0 <= j < h.len() ==> h[j].matches(s)
+    &&& 0 <= off <= 0x4000_0000_0000_0000 && buf.len() <= 0x4000_0000_0000_0000
+    &&& (buf.len() > 0 ==> off >= start && off + buf.len() <= end)
+    &&& (buf.len() > 0 ==> forall|i: int| idx <= i < n ==> off + buf.len() <= (#[trigger] fin[i]).offset)
+    &&& (buf.len() > 0 ==> forall|j: int| 0 <= j < h.len() ==> (#[trigger] h[j]).end() <= off || h[j].offset >= off + buf.len())
+    &&& forall|s: Seq<u8>| #[trigger] cons(hv, s) && buf.len() > 0 ==> off + buf.len() <= s.len() && buf =~= s.subrange(off, off + buf.len())
+    &&& sum_len(h) + buf.len() == sum_len(fin.take(idx))
+    &&& forall|k: int| seq_covers(fin.take(idx), k) ==> seq_covers(h, k) || off <= k < off + buf.len()
+}
+/// the merge buffer has been pushed as one defragmented buffer
+pub open spec fn flushed(h0: Seq<Buffer>, hn: Seq<Buffer>, off0: int, buf0: Seq<u8>) -> bool {
+    hn.len() == h0.len() + 1 && hn.drop_last() =~= h0 && hn.last().offset == off0 && hn.last().bytes@ == buf0
+        && hn.last().allocation_size == buf0.len() && hn.last().defragmented
+}
+/// one iteration of the second loop on trimmed buffer `c`
+pub open spec fn step2(h0: Seq<Buffer>, buf0: Seq<u8>, off0: int, hn: Seq<Buffer>, bufn: Seq<u8>, offn: int, c: Buffer) -> bool {
+    if c.defragmented {
+        bufn == buf0 && offn == off0 && (if c.bytes@.len() > 0 { hn == h0.push(c) } else { hn == h0 })
+    } else if c.offset != off0 + buf0.len() {
+        offn == c.offset && bufn =~= c.bytes@ && (if buf0.len() > 0 { flushed(h0, hn, off0, buf0) } else { hn == h0 })
+    } else {
+        hn == h0 && offn == off0 && bufn =~= buf0 + c.bytes@
+    }
+}
+pub proof fn lemma_p2_init(fin: Seq<Buffer>, start: u64, end: u64, hv: Seq<Buffer>)
+    ensures p2(Seq::<Buffer>::empty(), Seq::<u8>::empty(), 0, fin, 0, start, end, hv)
+{
+    reveal(p2);
+    assert(fin.take(0) =~= Seq::<Buffer>::empty());
+}
+pub proof fn lemma_p2_bounds(h: Seq<Buffer>, buf: Seq<u8>, off: int, fin: Seq<Buffer>, idx: int, start: u64, end: u64, hv: Seq<Buffer>)
+    requires p2(h, buf, off, fin, idx, start, end, hv)
+    ensures 0 <= off <= 0x4000_0000_0000_0000, buf.len() <= 0x4000_0000_0000_0000
+{ reveal(p2); }
+/// pushing buffer x (at or above everything pushed so far, below everything still to come)
+pub proof fn lemma_p2_push(h: Seq<Buffer>, x: Buffer, start: u64, end: u64, hv: Seq<Buffer>)
+    requires forall|j: int| 0 <= j < h.len() ==> heap_elem(#[trigger] h[j], start, end), pairwise_disjoint(h),
+        forall|s: Seq<u8>, j: int| #![trigger h[j].matches(s)] cons(hv, s) && 0 <= j < h.len() ==> h[j].matches(s),
+        heap_elem(x, start, end), forall|s: Seq<u8>| #[trigger] cons(hv, s) ==> x.matches(s),
+        forall|j: int| 0 <= j < h.len() ==> (#[trigger] h[j]).end() <= x.offset || x.end() <= h[j].offset,
+    ensures forall|j: int| 0 <= j < h.push(x).len() ==> heap_elem(#[trigger] h.push(x)[j], start, end), pairwise_disjoint(h.push(x)),
+        forall|s: Seq<u8>, j: int| #![trigger h.push(x)[j].matches(s)] cons(hv, s) && 0 <= j < h.push(x).len() ==> h.push(x)[j].matches(s),
+        sum_len(h.push(x)) == sum_len(h) + x.bytes@.len(),
+        forall|k: int| seq_covers(h, k) || x.offset <= k < x.end() ==> #[trigger] seq_covers(h.push(x), k),
+{
+    let t = h.push(x);
+    lemma_sum_push(h, x);
+    lemma_disjoint_push(h, x);
+    assert forall|j: int| 0 <= j < t.len() implies heap_elem(#[trigger] t[j], start, end) by { if j < h.len() { assert(t[j] == h[j]); } }
+    assert forall|s: Seq<u8>, j: int| #![trigger t[j].matches(s)] cons(hv, s) && 0 <= j < t.len() implies t[j].matches(s) by { if j < h.len() { assert(t[j] == h[j]); } }
+    assert forall|k: int| seq_covers(h, k) || x.offset <= k < x.end() implies #[trigger] seq_covers(t, k) by { lemma_covers_push(h, x, k); }
+}
+
+pub proof fn lemma_p2_pushchunk(h: Seq<Buffer>, buf: Seq<u8>, off: int, fin: Seq<Buffer>, idx: int, start: u64, end: u64, hv: Seq<Buffer>)
+    requires p2(h, buf, off, fin, idx, start, end, hv), fin_static(fin, start, end, hv), 0 <= idx < fin.len(),
+        fin[idx].defragmented, fin[idx].bytes@.len() > 0,
+    ensures p2(h.push(fin[idx]), buf, off, fin, idx + 1, start, end, hv)
+{
+    reveal(p2); reveal(fin_static);
+    let c = fin[idx];
+    let n = fin.len() as int;
+    assert(c.offset >= start && c.end() <= end);
+    assert forall|s: Seq<u8>| #[trigger] cons(hv, s) implies c.matches(s) by { assert(fin[idx].matches(s)); }
+    assert forall|j: int| 0 <= j < h.len() implies (#[trigger] h[j]).end() <= c.offset || c.end() <= h[j].offset by { assert(h[j].end() <= fin[idx].offset); }
+    lemma_p2_push(h, c, start, end, hv);
+    let t = h.push(c);
+    lemma_sum_take(fin, idx);
+    assert forall|j: int, i: int| 0 <= j < t.len() && idx + 1 <= i < n implies (#[trigger] t[j]).end() <= (#[trigger] fin[i]).offset by {
+        if j < h.len() { assert(t[j] == h[j]); } else { assert(t[j] == c); assert(fin[idx].end() <= fin[i].offset); }
+    }
+    if buf.len() > 0 {
+        assert(off + buf.len() <= fin[idx].offset);
+        assert forall|j: int| 0 <= j < t.len() implies (#[trigger] t[j]).end() <= off || t[j].offset >= off + buf.len() by {
+            if j < h.len() { assert(t[j] == h[j]); }
+        }
+    }
+    assert forall|k: int| seq_covers(fin.take(idx + 1), k) implies seq_covers(t, k) || off <= k < off + buf.len() by {
+        lemma_covers_take(fin, idx, k);
+    }
+}
+pub proof fn lemma_p2_skip(h: Seq<Buffer>, buf: Seq<u8>, off: int, fin: Seq<Buffer>, idx: int, start: u64, end: u64, hv: Seq<Buffer>)
+    requires p2(h, buf, off, fin, idx, start, end, hv), 0 <= idx < fin.len(), fin[idx].bytes@.len() == 0,
+    ensures p2(h, buf, off, fin, idx + 1, start, end, hv)
+{
+    reveal(p2);
+    lemma_sum_take(fin, idx);
+    assert forall|k: int| seq_covers(fin.take(idx + 1), k) implies seq_covers(h, k) || off <= k < off + buf.len() by {
+        lemma_covers_take(fin, idx, k);
+    }
+}
+pub proof fn lemma_p2_flush(h: Seq<Buffer>, buf: Seq<u8>, off: int, hn: Seq<Buffer>, fin: Seq<Buffer>, idx: int, start: u64, end: u64, hv: Seq<Buffer>, offn: int)
+    requires p2(h, buf, off, fin, idx, start, end, hv), buf.len() > 0, flushed(h, hn, off, buf), 0 <= offn <= 0x4000_0000_0000_0000,
+    ensures p2(hn, Seq::<u8>::empty(), offn, fin, idx, start, end, hv)
+{
+    reveal(p2);
+    let m = hn.last();
+    let n = fin.len() as int;
+    assert(hn =~= h.push(m));
+    assert(m.end() == off + buf.len());
+    assert(heap_elem(m, start, end));
+    assert forall|s: Seq<u8>| #[trigger] cons(hv, s) implies m.matches(s) by { }
+    lemma_p2_push(h, m, start, end, hv);
+    assert forall|j: int, i: int| 0 <= j < hn.len() && idx <= i < n implies (#[trigger] hn[j]).end() <= (#[trigger] fin[i]).offset by {
+        if j < h.len() { assert(hn[j] == h[j]); }
+    }
+    assert forall|k: int| seq_covers(fin.take(idx), k) implies seq_covers(hn, k) by { }
+}
+pub proof fn lemma_p2_restart(h: Seq<Buffer>, off: int, fin: Seq<Buffer>, idx: int, start: u64, end: u64, hv: Seq<Buffer>)
+    requires p2(h, Seq::<u8>::empty(), off, fin, idx, start, end, hv), fin_static(fin, start, end, hv), 0 <= idx < fin.len(), !fin[idx].defragmented,
+    ensures p2(h, fin[idx].bytes@, fin[idx].offset as int, fin, idx + 1, start, end, hv)
+{
+    reveal(p2); reveal(fin_static);
+    let c = fin[idx];
+    let n = fin.len() as int;
+    lemma_sum_take(fin, idx);
+    assert forall|i: int| idx + 1 <= i < n implies c.offset + c.bytes@.len() <= (#[trigger] fin[i]).offset by { assert(fin[idx].end() <= fin[i].offset); }
+    assert forall|j: int| 0 <= j < h.len() implies (#[trigger] h[j]).end() <= c.offset || h[j].offset >= c.offset + c.bytes@.len() by { assert(h[j].end() <= fin[idx].offset); }
+    assert forall|s: Seq<u8>| #[trigger] cons(hv, s) implies c.offset + c.bytes@.len() <= s.len() && c.bytes@ =~= s.subrange(c.offset as int, c.offset + c.bytes@.len()) by {
+        assert(fin[idx].matches(s));
+    }
+    assert forall|k: int| seq_covers(fin.take(idx + 1), k) implies seq_covers(h, k) || c.offset <= k < c.offset + c.bytes@.len() by {
+        lemma_covers_take(fin, idx, k);
+    }
+}
+pub proof fn lemma_p2_extend(h: Seq<Buffer>, buf: Seq<u8>, off: int, fin: Seq<Buffer>, idx: int, start: u64, end: u64, hv: Seq<Buffer>)
+    requires p2(h, buf, off, fin, idx, start, end, hv), fin_static(fin, start, end, hv), 0 <= idx < fin.len(), !fin[idx].defragmented,
+        buf.len() > 0, fin[idx].offset == off + buf.len(),
+    ensures p2(h, buf + fin[idx].bytes@, off, fin, idx + 1, start, end, hv)
+{
+    reveal(p2); reveal(fin_static);
+    let c = fin[idx];
+    let n = fin.len() as int;
+    let b2 = buf + c.bytes@;
+    lemma_sum_take(fin, idx);
+    assert(off + b2.len() == c.end());
+    assert forall|i: int| idx + 1 <= i < n implies off + b2.len() <= (#[trigger] fin[i]).offset by { assert(fin[idx].end() <= fin[i].offset); }
+    assert forall|j: int| 0 <= j < h.len() implies (#[trigger] h[j]).end() <= off || h[j].offset >= off + b2.len() by {
+        assert(h[j].end() <= fin[idx].offset);
+        assert(heap_elem(h[j], start, end));
+    }
+    assert forall|s: Seq<u8>| #[trigger] cons(hv, s) implies off + b2.len() <= s.len() && b2 =~= s.subrange(off, off + b2.len()) by {
+        assert(fin[idx].matches(s));
+        assert(buf =~= s.subrange(off, off + buf.len()));
+    }
+    assert forall|k: int| seq_covers(fin.take(idx + 1), k) implies seq_covers(h, k) || off <= k < off + b2.len() by {
+        lemma_covers_take(fin, idx, k);
+    }
+}
+pub proof fn lemma_p2_step(h0: Seq<Buffer>, buf0: Seq<u8>, off0: int, hn: Seq<Buffer>, bufn: Seq<u8>, offn: int, fin: Seq<Buffer>, idx: int, start: u64, end: u64, hv: Seq<Buffer>)
+    requires p2(h0, buf0, off0, fin, idx, start, end, hv), fin_static(fin, start, end, hv), 0 <= idx < fin.len(),
+        step2(h0, buf0, off0, hn, bufn, offn, fin[idx]),
+    ensures p2(hn, bufn, offn, fin, idx + 1, start, end, hv)
+{
+    let c = fin[idx];
+    if c.defragmented {
+        if c.bytes@.len() > 0 { lemma_p2_pushchunk(h0, buf0, off0, fin, idx, start, end, hv); }
+        else { lemma_p2_skip(h0, buf0, off0, fin, idx, start, end, hv); }
+    } else if c.offset != off0 + buf0.len() {
+        assert(0 <= c.offset <= 0x4000_0000_0000_0000) by { reveal(fin_static); }
+        if buf0.len() > 0 {
+            lemma_p2_flush(h0, buf0, off0, hn, fin, idx, start, end, hv, c.offset as int);
+            lemma_p2_restart(hn, c.offset as int, fin, idx, start, end, hv);
+        } else {
+            assert(buf0 =~= Seq::<u8>::empty());
+            lemma_p2_restart(h0, off0, fin, idx, start, end, hv);
+        }
+        assert(bufn == c.bytes@);
+    } else {
+        if buf0.len() > 0 {
+            lemma_p2_extend(h0, buf0, off0, fin, idx, start, end, hv);
+            assert(bufn == buf0 + c.bytes@);
+        } else {
+            assert(buf0 =~= Seq::<u8>::empty());
+            lemma_p2_restart(h0, off0, fin, idx, start, end, hv);
+            assert(bufn == c.bytes@);
+        }
+    }
+}
+/// the rebuilt heap once every trimmed buffer is done and the merge buffer has been flushed
+pub open spec fn post2(h: Seq<Buffer>, fin: Seq<Buffer>, start: u64, end: u64, hv: Seq<Buffer>) -> bool {
+    &&& forall|j: int| 0 <= j < h.len() ==> heap_elem(#[trigger] h[j], start, end)
+    &&& pairwise_disjoint(h)
+    &&& forall|s: Seq<u8>, j: int| #![trigger h[j].matches(s)] cons(hv, s) && 0 <= j < h.len() ==> h[j].matches(s)
+    &&& sum_len(h) == sum_len(fin)
+    &&& forall|k: int| seq_covers(fin, k) ==> seq_covers(h, k)
+}
+pub proof fn lemma_p2_finish(h0: Seq<Buffer>, buf0: Seq<u8>, off0: int, hn: Seq<Buffer>, fin: Seq<Buffer>, start: u64, end: u64, hv: Seq<Buffer>)
+    requires p2(h0, buf0, off0, fin, fin.len() as int, start, end, hv),
+        if buf0.len() > 0 { flushed(h0, hn, off0, buf0) } else { hn == h0 },
+    ensures post2(hn, fin, start, end, hv)
+{
+    assert(fin.take(fin.len() as int) =~= fin);
+    if buf0.len() > 0 {
+        lemma_p2_flush(h0, buf0, off0, hn, fin, fin.len() as int, start, end, hv, 0);
+        reveal(p2);
+    } else {
+        reveal(p2);
+    }
+}
+
 impl Assembler {
     pub open spec fn bufs(&self) -> Seq<Buffer> { heap_view(self.data) }
     /// representation invariant: byte accounting is exact, no empty buffer is kept, nothing lies beyond `end`
@@ -424,9 +762,7 @@ impl Assembler {
         }
     }
     /// every buffered chunk holds the sender's bytes at its offset
-    pub open spec fn consistent(&self, s: Seq<u8>) -> bool {
-        forall|i: int| 0 <= i < self.bufs().len() ==> (#[trigger] self.bufs()[i]).matches(s)
-    }
+    pub open spec fn consistent(&self, s: Seq<u8>) -> bool { cons(self.bufs(), s) }
     /// ordered mode: some buffer still holds the byte at the read index
     pub open spec fn holds_next(&self) -> bool {
         exists|i: int| 0 <= i < self.bufs().len() && (#[trigger] self.bufs()[i]).offset <= self.bytes_read < self.bufs()[i].end()
@@ -435,17 +771,116 @@ impl Assembler {
     pub open spec fn recvd_bound(&self) -> nat { match self.state { State::Unordered { recvd } => recvd.bound(), _ => 0 } }
     /// some buffer holds stream offset k
     pub open spec fn covers(&self, k: int) -> bool { seq_covers(self.bufs(), k) }
-    /// Assembler::defragment: contract boundary for now (the proof of the real body is in progress: design/probes/wip_assembler_defragment_real.rs)
-    #[verifier::external_body]
-    pub fn defragment(&mut self)
+//@ extract quinn-proto/src/connection/assembler.rs :: impl Assembler::fn defragment
+//@ vis pub
+//@ attr #[verifier::rlimit(100)]
+//@ contract
         requires old(self).wf()
         ensures final(self).wf(), final(self).state == old(self).state, final(self).end == old(self).end, final(self).bytes_read == old(self).bytes_read,
             forall|s: Seq<u8>| old(self).consistent(s) ==> final(self).consistent(s),
+            // nothing that is still to be delivered is lost (ordered mode drops what lies below the read index)
             forall|k: int| old(self).covers(k) && (final(self).state is Ordered ==> k >= final(self).bytes_read) ==> final(self).covers(k),
             pairwise_disjoint(final(self).bufs()),
             // ordered mode: nothing that was already consumed stays buffered
             final(self).state is Ordered ==> forall|i: int| 0 <= i < final(self).bufs().len() ==> (#[trigger] final(self).bufs()[i]).offset >= final(self).bytes_read,
-    { unimplemented!() }
+//@ at-start
+        let ghost hv = self.bufs();
+        let ghost me0 = *self;   // (a local named `old` shadows old(..) below)
+//@ after let mut buffers = old.into_sorted_vec();
+        let ghost b0 = buffers@;
+        let ghost n = b0.len() as int;
+        let ghost mut fin: Seq<Buffer> = Seq::empty();
+        proof {
+            assert(all_ok(b0, self.end)) by {
+                assert forall|i: int| 0 <= i < n implies buf_ok(#[trigger] b0[i], self.end) by {
+                    let j = choose|j: int| 0 <= j < hv.len() && hv[j] == b0[i];
+                }
+            }
+            // ascending in Ord order = descending offsets
+            assert(sorted_desc(b0)) by {
+                assert forall|a: int, b: int| 0 <= a <= b < n implies (#[trigger] b0[a]).offset >= (#[trigger] b0[b]).offset by {
+                    assert(!(b0[a].cmp_spec(&b0[b]) is Greater));
+                }
+            }
+        }
+//@ after let mut offset = #0
+        let ghost start = offset;
+        proof { lemma_p1_init(b0, start, self.end); }
+//@ loop-iter 0 it
+//@ loop 0
+            invariant
+                it.seq().len() == n, fin.len() == it.index@, n == b0.len(),
+                forall|i: int| 0 <= i < n ==> *(#[trigger] it.seq()[i]) == b0[n - 1 - i],
+                forall|i: int| 0 <= i < it.index@ ==> *final(it.seq()[i]) == #[trigger] fin[i],
+                all_ok(b0, self.end), sorted_desc(b0),
+                self.end == me0.end, self.end <= 0x4000_0000_0000_0000, self.bytes_read == me0.bytes_read, self.state == me0.state,
+                start <= 0x4000_0000_0000_0000, offset <= 0x4000_0000_0000_0000,
+                p1(fin, b0, start, offset, self.end),
+                self.buffered == sum_len(fin), fragmented_buffered <= self.buffered, self.buffered + start <= offset,
+//@ loop-start 0
+            proof {
+                assert(*chunk == b0[n - 1 - it.index@]);
+                assert(buf_ok(b0[n - 1 - it.index@], self.end));
+            }
+//@ after chunk.try_mark_defragment(offset);
+            proof { lemma_p1_step(fin, b0, start, offset, self.end, *chunk); }
+//@ loop-end 0
+            proof { fin = fin.push(*chunk); }
+//@ after for chunk in buffers.iter_mut().rev()
+        proof {
+            assert(fin.len() == n);
+            assert forall|i: int| 0 <= i < n implies buffers@[i] == fin[n - 1 - i] by {
+                let k = n - 1 - i;
+                assert(fin[k] == fin[k]);
+            }
+            lemma_p1_final(fin, b0, start, offset, self.end, hv);
+            lemma_p2_init(fin, start, self.end, hv);
+        }
+//@ loop-iter 1 it
+//@ loop 1
+            invariant
+                it.seq().len() == n, fin.len() == n, forall|i: int| 0 <= i < n ==> #[trigger] it.seq()[i] == fin[i],
+                self.end == me0.end, self.bytes_read == me0.bytes_read, self.state == me0.state,
+                self.buffered == sum_len(fin), self.allocated == self.buffered,
+                fin_static(fin, start, self.end, hv),
+                p2(heap_view(self.data), buffer@, offset as int, fin, it.index@, start, self.end, hv),
+//@ loop-start 1
+            let ghost idx = it.index@;
+            let ghost h0 = heap_view(self.data);
+            let ghost buf0 = buffer@;
+            let ghost off0 = offset as int;
+            proof {
+                assert(chunk == fin[idx]);
+                lemma_p2_bounds(h0, buf0, off0, fin, idx, start, self.end, hv);
+            }
+//@ after self.data .push(Buffer::new_defragmented( #0
+                    proof { assert(flushed(h0, heap_view(self.data), off0, buf0)); }
+//@ loop-end 1
+            proof {
+                assert(step2(h0, buf0, off0, heap_view(self.data), buffer@, offset as int, fin[idx]));
+                lemma_p2_step(h0, buf0, off0, heap_view(self.data), buffer@, offset as int, fin, idx, start, self.end, hv);
+            }
+//@ before if !buffer.is_empty() #0
+        let ghost h0 = heap_view(self.data);
+        let ghost buf0 = buffer@;
+        let ghost off0 = offset as int;
+//@ after self.data .push(Buffer::new_defragmented( #1
+            proof { assert(flushed(h0, heap_view(self.data), off0, buf0)); }
+//@ at-end
+        proof {
+            let hn = self.bufs();
+            lemma_p2_finish(h0, buf0, off0, hn, fin, start, self.end, hv);
+            assert forall|j: int| 0 <= j < hn.len() implies (#[trigger] hn[j]).allocation_size == hn[j].bytes@.len() && buf_ok(hn[j], self.end) && hn[j].offset >= start by {
+                assert(heap_elem(hn[j], start, self.end));
+            }
+            lemma_sum_alloc_eq(hn);
+            // the sorted vector is a permutation of the old heap: same total
+            lemma_sum_len_is_seq_sum(b0);
+            lemma_sum_len_is_seq_sum(hv);
+            assert(sum_len(hn) <= sum_len(hv));
+            if self.state is Unordered { axiom_total_le_bound(self.state->recvd); }
+        }
+//@ end
 //@ extract quinn-proto/src/connection/assembler.rs :: impl Assembler::fn ensure_ordering
 //@ ret res
 //@ attr #[verifier::rlimit(60)]
@@ -596,6 +1031,25 @@ impl Assembler {
                         }
                     }
 //@ end
+//@ extract quinn-proto/src/connection/assembler.rs :: impl Assembler::fn new
+//@ ret r
+//@ contract
+        ensures r.wf(), r.state is Ordered, r.bytes_read == 0, r.end == 0, r.bufs().len() == 0
+//@ end
+//@ extract quinn-proto/src/connection/assembler.rs :: impl Assembler::fn reinit
+//@ contract
+        ensures final(self).wf(), final(self).state is Ordered, final(self).bytes_read == 0, final(self).end == 0, final(self).bufs().len() == 0
+//@ end
+//@ extract quinn-proto/src/connection/assembler.rs :: impl Assembler::fn bytes_read
+//@ ret r
+//@ contract
+        ensures r == self.bytes_read
+//@ end
+//@ extract quinn-proto/src/connection/assembler.rs :: impl Assembler::fn clear
+//@ contract
+        requires old(self).wf()
+        ensures final(self).wf(), final(self).bufs().len() == 0, final(self).state == old(self).state, final(self).bytes_read == old(self).bytes_read, final(self).end == old(self).end
+//@ end
 //@ extract quinn-proto/src/connection/assembler.rs :: impl Assembler::fn read
 //@ ret r
 //@ attr #[verifier::rlimit(60)]
@@ -679,6 +1133,12 @@ impl Assembler {
 //@ end
 }
 
+/// what `#[derive(Default)]` on Assembler / State (`#[default] Ordered`) generates
+impl Default for Assembler {
+    fn default() -> (r: Self)
+        ensures r.state is Ordered, heap_view(r.data) == Seq::<Buffer>::empty(), r.buffered == 0, r.allocated == 0, r.bytes_read == 0, r.end == 0
+    { Assembler { state: State::Ordered, data: BinaryHeap::default(), buffered: 0, allocated: 0, bytes_read: 0, end: 0 } }
+}
 impl State {
 //@ extract quinn-proto/src/connection/assembler.rs :: impl State::fn is_ordered
 //@ ret r
@@ -721,6 +1181,7 @@ impl Buffer {
             !final(self).defragmented ==> !old(self).defragmented && final(self).bytes@.len() <= 0xffff_ffff,
             old(self).defragmented ==> final(self).defragmented,
             final(self).bytes@.len() == 0 ==> final(self).defragmented,
+            marked(*final(self), *old(self), offset),
 //@ end
 //@ extract quinn-proto/src/connection/assembler.rs :: impl Buffer::fn new_defragmented
 //@ ret r
